@@ -18,7 +18,8 @@ fn run(payload: &str) -> String {
         with_junk: wj == "1",
     };
     let t = parse(src.as_str()).unwrap_or_else(|(res, _)| res);
-    let out = serialize_with_options(&t, options);
+    // the plain entry point `serialize` = default options = Junk dropped
+    let out = if wj == "1" { serialize_with_options(&t, options) } else { fluent_syntax::serializer::serialize(&t) };
     let t2 = parse(out.as_str()).unwrap_or_else(|(res, _)| res);
     let out2 = serialize_with_options(&t2, options);
     // the owned instantiation must serialise identically
